@@ -1071,6 +1071,7 @@ def _run(ctx):
     check_bplans(ctx, boundary_plans(ctx, ctx.budget(1200, 60000), ctx.budget(800, 40000)), label='boundary')
     if _stop(ctx):
         return
+    check_races(ctx)
     singles = single_fault_plans(ctx.quick())
     check_plans(ctx, singles, label='single-fault')
     ctx.extra['exhaustive_single_fault_placements'] = len(singles)
@@ -1120,7 +1121,33 @@ def search(ctx, around=None):
         check_environs(ctx, 6000)
 
 
+def check_races(ctx):
+    """the first requests of an application on two threads at once (harness/c01_race.py): oracle only"""
+    from . import c01_race
+    for case in c01_race.cases():
+        obs, hang = bd.guarded(c01_race.run_case, case)
+        ctx.case(case, nontrivial=True, key='race:%s:%s:%s' % (case['kind'], case['pos'], case['parked']))
+        ctx.count('stream:first-request-race')
+        if hang:
+            ctx.oracle_fail(case, 'two first requests of one application on two threads: never answered (%s)' % hang,
+                            'race:never_returned')
+            return
+        for what, sig in c01_race.oracle(case, obs):
+            ctx.oracle_fail(case, what, sig)
+
+
 def replay(ctx, case):
+    if case.get('race'):
+        from . import c01_race
+        obs = c01_race.run_case(case)
+        print('case   :', case)
+        for k in ('ref', 'got', 'parked', 'parked_ref'):
+            if obs.get(k) is not None:
+                print('%-7s: %s' % (k, c01_race._show(obs[k])))
+        for what, sig in c01_race.oracle(case, obs):
+            print('oracle :', sig, '-', what)
+            ctx.oracle_fail(case, what, sig)
+        return
     if 'environ' in case:
         c = {'env': dict(case['environ']), 'body': bytes.fromhex(case.get('body_hex', '')), 'tb': case.get('tb', 0)}
         c['env'].setdefault('wsgi.version', (1, 0))
